@@ -95,7 +95,7 @@ class C05(Prop):
     translators = ['states']
     header = 'From RP Require Import Gen.StatesTables Pipeline.Model Pipeline.Oracle.'
     clauses = ['component_survives', 'no_task_lost', 'final_and_forwarded', 'bystander_failed', 'failure_recorded',
-               'cancel_requested', 'done_truthful', 'finals_agree']
+               'cancel_requested', 'done_truthful', 'finals_agree', 'released_once']
     corr_name = ('Pipeline.Model (work_cb / worker phases / run) vs the real BaseComponent.work_cb + advance + '
                  'the work routines of the nine pipeline stations, raptor Master._result_cb, and their chaining')
     rule = ('corpus; per station: random bulks of 1-6 tasks x fault placement (staging error, sandbox lookup error, '
